@@ -59,11 +59,11 @@ def suspend_part(ctx):
     twice = {"nodes": [{"k": "par", "branches": [[{"k": "wait", "s": 1}, {"k": "wait", "s": 1}, {"k": "step"}], [{"k": "step", "dur": 3.0}]]},
                        {"k": "step"}]}
     for site in sites:
-        for rep in range(4 if ctx.quick else 16):
+        for rep in range(2 if ctx.quick else 16):
             items.append((twice, {"seed": rng.randrange(1 << 30), "max_inv": 8, "api_latency": 0.0, "batcher": {"time": 0.0},
                                   "slow_holder": site, "strategy": "pct" if rep % 2 else "random"}))
         for d in (0.9, 1.0, 1.1):
-            for rep in range(6 if ctx.quick else 24):
+            for rep in range(3 if ctx.quick else 24):
                 items.append((two_timed(d), {"seed": rng.randrange(1 << 30), "max_inv": 8, "api_latency": 0.0, "batcher": {"time": 0.0},
                                              "slow_holder": site, "strategy": "pct" if rep % 2 else "random"}))
     execs = run_campaign(ctx, items)
@@ -91,7 +91,30 @@ def failstop_part(ctx):
     executor_sweep(ctx, STRICT["C06"], tag=f"exf_{ctx.pid}",
                    scripts_sets=[[["step", "bte"], ["step", "ok"]], [["bte"], ["susp"]], [["tsusp", "bte"], ["step", "ok"]]],
                    configs=[(0, 0, NONEC, NONEP), (0, 1, NONEC, NONEP), (1, 0, 0, 0)], budget=(6 if ctx.quick else None))
+    # (the first program makes the timer thread's refresh checkpoint one of the enumerated calls while a sibling is still running)
+    # (the sibling stays inside its user function far longer than the hang threshold: only the timer thread can wake the caller)
+    resume_while_running = {"nodes": [{"k": "par", "branches": [[{"k": "wait", "s": 1}, {"k": "step"}], [{"k": "step", "dur": 400.0}]]}, {"k": "step"}]}
     progs = [CURATED_CONC[n] for n in ["m01_all_ok", "m04_waits_retries", "m02_first_successful", "m06_maxc1", "m15_timed_and_indef"]]
     ex = fault_enumeration(ctx, progs, [oracles.c06, oracles.c18], faults=["invalid_param", "throttle429"], seed_salt=707)
+    # the same enumeration for the program whose sibling is busy for 400 virtual seconds; "terminates promptly": the invocation in which
+    # a call failed ends within 5 virtual seconds of the failure (the caller waits in the executor, not inside user code)
+    from checks.durable_common import run_campaign, scen_of
+    from harness.driver import Execution
+    n0 = Execution(resume_while_running, {"seed": 1, "hang_after": 2000.0}).run().backend.api_calls
+    items = [(resume_while_running, {"seed": 900 + 7 * k + j, "faults": {str(k): f}, "max_inv": 6, "api_latency": lat, "hang_after": 2000.0})
+             for k in range(1, n0 + 1) for j, (f, lat) in enumerate([("invalid_param", 0.0), ("throttle429", 0.3)])]
+    slow = run_campaign(ctx, items)
+    for e in slow:
+        oracles.c06(ctx, e)
+        for r in e.invocations:
+            t_fail = next((x["t"] for x in r.events if x["ev"] == "ApiReturn" and not x["ok"]), None)
+            t_end = next((x["t"] for x in r.events if x["ev"] == "WrapperReturn"), None)
+            if t_fail is not None and (t_end is None or t_end - t_fail > 5.0):
+                ctx.violation("not-prompt-after-failure",
+                              f"invocation {r.inv}: a checkpoint call failed at t={t_fail}, the invocation "
+                              + (f"ended {t_end - t_fail:.1f} virtual seconds later" if t_end is not None else "never ended")
+                              + " (a branch was inside a 400 s user function; the caller was waiting in map/parallel)", scen_of(e))
+                break
+    ex = ex + slow
     from checks.conc_check import validate_exec_traces
     validate_exec_traces(ctx, ex, STRICT["C06"], name=f"{ctx.pid.lower()}_fail_extrace")
